@@ -36,7 +36,9 @@ CLAIMS = {
     "C15": ("determinism scan over all resolved calls/casts of tree-sitter-generate's MIR (expected zero + positive fixture); vet-before-advance monitor and gates on the state-merging licence", "§4 C15",
             "no iteration over RandomState-hashed containers or other process-dependent sources; states are merged only after every consumed entry was vetted; tree equality of optimised/unoptimised parsers is not decided"),
     "C17": ("pairing rules in both directions (push↔HighlightStart, pop↔HighlightEnd), who-may-construct table for events, gates on Source emission, termination and HTML escaping (rustc MIR)", "§4 C17",
-            "events are emitted exactly where the end-position stack changes; raw bytes reach the HTML only when escape-free; ordering across layers and injection containment are not decided"),
+            "events are emitted exactly where the end-position stack changes; raw bytes reach the HTML only when escape-free; a reused renderer/parser is reset; injected layers parse only ranges produced by intersect_ranges, which re-clamps against every parent range; ordering across layers and local-reference colouring are not decided"),
+    "C18": ("value-flow (expression provenance) rules over rustc MIR of tree-sitter-tags: which node and positions every Tag / per-line-cache field is computed from; gates on cache reuse, on dropping local names and on the line window bounds", "§10.7 C18",
+            "range is the hull of tag and name ranges, span/line/UTF-16 columns are computed from the name node, the same-row cache stores and is used for consistent positions, the line window is clamped to the text; the numeric relations themselves (UTF-16 lengths, rows/columns) and doc text are not decided"),
     "C19": ("typestate monitor (lock held / dropped) and publish-after-success monitor over rustc MIR; who-may-call table for the compile functions; data-dependence of the compiler's output argument on temp_path", "§4 C19",
             "compile only under the lock, lock dropped on every exit, atomic publication via temp+rename after success, waiter re-checks freshness; interleavings and crash points themselves are not decided"),
     "C20": ("field-flow tracing of TestCorrection arguments, type-aware taint from the reader's delimiter tuple to the entry, path counting of recorded corrections with correlated pure conditions (rustc MIR)", "§4 C20",
@@ -49,7 +51,6 @@ NA = {
     "C03": "quantifies over grammars × strings; truth lives in generated table contents, not in code shape — no sound static rule in reach",
     "C05": "match semantics of the query automaton over all trees is a runtime relation; no structural necessary condition that is not a frozen fragment",
     "C16": "conformance of produced trees to node-types.json and completeness of look-ahead sets relate generated data to runtime behaviour",
-    "C18": "every clause is a numeric/text relation (UTF-16 lengths, trimmed line ranges); no structural necessary condition found",
 }
 
 
@@ -86,7 +87,7 @@ def main():
                   "source_commits": [], "add_only": True},
         "engines": [
             {"name": "cfacts", "path": "engines/cfacts", "serves_properties": [c for c in CLAIMS], "kind_free_text": "LibTooling extractor: Clang AST + CFG of lib/src/lib.c with build.rs flags → JSON facts"},
-            {"name": "rsfacts", "path": "engines/rsfacts", "serves_properties": ["C19", "C20", "C15", "C17", "C01", "C13", "C14", "C07", "C10"], "kind_free_text": "rustc_private driver: MIR/HIR facts of the workspace crates → JSON facts"},
+            {"name": "rsfacts", "path": "engines/rsfacts", "serves_properties": ["C19", "C20", "C15", "C17", "C18", "C01", "C13", "C14", "C07", "C10", "C11"], "kind_free_text": "rustc_private driver: MIR/HIR facts of the workspace crates → JSON facts"},
             {"name": "rules", "path": "engines/rules", "serves_properties": [c for c in CLAIMS], "kind_free_text": "Python rule engine: patterns, path-sensitive CFG search with flag tracking, who-may/field/sibling rules; tables in props/"},
         ],
         "checks": checks,
